@@ -46,7 +46,9 @@ FILES = {
     "OSq.Proofs.Main3": {"C01": None, "C10": ["OSq.cnotDecompose_total"]},
     "OSq.Proofs.Main4": {"C02": None, "C05": None},
     "OSq.Proofs.Main5": {"C01": None, "C06": None},
-    "OSq.Proofs.RoundTrip": {"C04": None, "C12": None, "C20": None},
+    "OSq.Proofs.RoundTrip": {"C04": ["OSq.readLine3", "OSq.readProgram3", "OSq.param_value", "OSq.isParamTok", "OSq.decimalValue"], "C12": ["OSq.readLine1", "OSq.readProgram1", "OSq.exportV1_writable"],
+                              "C20": ["OSq.readLine3_gate", "OSq.readLine1_gate"]},
+    "OSq.Sem.Grammar": {"C04": None},
     "OSq.Proofs.GateTable": {"C07": None},
     "OSq.Proofs.Shape": {"C10": None},
     "OSq.Proofs.Equality": {"C16": None, "C17": ["OSq.compare"]},
